@@ -505,6 +505,11 @@ func (g *msgGen) fill(m protoreflect.Message, depth int) {
 		if fd.IsMap() {
 			vfd = fd.MapValue()
 		}
+		if vfd.Kind() == protoreflect.MessageKind && vfd.Message().FullName() == "google.protobuf.Duration" {
+			// not a J5 type: the reflector lists the field (string/format duration) but the codec has no
+			// conversion for it (KNOWN_FINDINGS: recorded under C18/C06); outside C01/C08's quantifier
+			continue
+		}
 		if vfd.Kind() == protoreflect.MessageKind && depth >= g.maxDepth {
 			// leaves only at the depth limit: well-known scalars and small payloads,
 			// or (sometimes) a present-but-empty sub-message
